@@ -163,14 +163,15 @@ func (vf *VersionedFetcher) Init(
 		false,
 	) // were going to discard and nuke this later
 
-	// run the DF init, VersionedFetchers only supports the Primary (0) index
+	// run the DF init, VersionedFetchers only supports the Primary (0) index: the replayed state
+	// lives in a scratch store that holds no secondary index entries.
 	vf.Fetcher = NewDocumentFetcher()
 	return vf.Fetcher.Init(
 		ctx,
 		identity,
 		vf.store,
 		documentACP,
-		index,
+		immutable.None[client.IndexDescription](),
 		col,
 		fields,
 		filter,
